@@ -1,9 +1,9 @@
 #!/bin/sh
 # run every registered check (tier from $1, default quick); prints one line per property
-tier=${1:-quick}
+tier=${1:-quick}; mkdir -p $(dirname $0)/out
 for p in C01 C02 C03 C04 C05 C06 C07 C08 C09 C10 C11 C12 C13 C14 C15 C16 C17 C18 C19 C20; do
   start=$(date +%s)
-  python3 /verif/check.py $p --tier $tier > /verif/out/run_$p.log 2>&1
+  python3 $(dirname $0)/check.py $p --tier $tier > $(dirname $0)/out/run_$p.log 2>&1
   rc=$?
-  echo "$p rc=$rc $(( $(date +%s) - start ))s $(grep -E 'VIOLATION|KNOWN-FINDING|MACHINERY' /verif/out/run_$p.log | head -2 | tr '\n' ' ')"
+  echo "$p rc=$rc $(( $(date +%s) - start ))s $(grep -E 'VIOLATION|KNOWN-FINDING|MACHINERY' $(dirname $0)/out/run_$p.log | head -2 | tr '\n' ' ')"
 done
